@@ -181,7 +181,7 @@ static Plan gen_merge(const std::string &prop, const std::string &tier, uint64_t
 	p.engine = "merge"; p.prop = prop; p.tier = tier; p.seed = seed; p.run = run;
 	Rng r(seed, run, 0x3e46e + (uint64_t)atoi(prop.c_str() + 1));
 	KeyGen kg(r);
-	size_t nsrc = r.chance(1, 12) ? 0 : 1 + r.below(6);
+	size_t nsrc = r.chance(1, 12) ? 0 : r.chance(1, 8) ? 7 + r.below(8) : 1 + r.below(6);	// now and then 7..14 sources (heaps four levels deep)
 	size_t U = 1 + r.below(r.chance(1, 4) ? 120 : 30);
 	std::vector<Bytes> pool;
 	for (size_t i = 0; i < U; i++) pool.push_back(kg.key());
@@ -289,7 +289,7 @@ bool mergeworld_build(const Plan &p, RunResult &res, MergeWorld &w, const std::s
 	for (auto &o : p.ops) {
 		if (o.name == "src") {
 			size_t id = (size_t)o.argi(0);
-			if (id >= 8) continue;
+			if (id >= 16) continue;
 			if (w.srcs.size() <= id) w.srcs.resize(id + 1);
 			w.srcs[id].used = true;
 			w.srcs[id].user = o.arg(1) == "user";
